@@ -154,6 +154,12 @@ class ContainerMixin:
                 if (lower is None or isinstance(lower, NoneV) or lo is not None) and \
                         (upper is None or isinstance(upper, NoneV) or hi is not None):
                     return StrV(s=base.s[slice(lo, hi)])
+            # a slice of an unknown string: a deterministic uninterpreted function of (string, lo, hi)
+            if step is None or isinstance(step, NoneV):
+                lo_t = as_int_term(lower) if lower is not None and not isinstance(lower, NoneV) else z3.IntVal(0)
+                hi_t = as_int_term(upper) if upper is not None and not isinstance(upper, NoneV) else z3.IntVal(-1)
+                fn = z3.Function("str_slice", StrSort, z3.IntSort(), z3.IntSort(), StrSort)
+                return StrV(t=fn(self.ctx.str_term(base), z3.simplify(lo_t), z3.simplify(hi_t)))
             return self.opaque_str("slice")
         raise Unsupported(f"slicing {base!r}")
 
